@@ -28,7 +28,7 @@ theorem get?_flatMap_not_mem (m : Msg) (tl : Dict) (k : Str) :
 theorem get?_flatMap_mem (m : Msg) (tl : Dict) :
     ∀ (opts : List OptStep) (s : OptStep), s ∈ opts → (opts.map (·.key)).Nodup →
       Dict.get? (opts.flatMap (marshalOpt m) ++ tl) s.key =
-        if s.mm.emits (m.get s.field) (m.get s.mm.guard) = true then some (s.ty.encode (m.get s.field))
+        if s.mm.emits (m.get s.field) = true then some (s.ty.encode (m.get s.field))
         else Dict.get? tl s.key := by
   intro opts
   induction opts with
@@ -39,7 +39,7 @@ theorem get?_flatMap_mem (m : Msg) (tl : Dict) :
     rw [List.flatMap_cons, List.append_assoc]
     rcases List.mem_cons.mp hs with rfl | hst
     · -- the head is the step itself
-      by_cases hem : s.mm.emits (m.get s.field) (m.get s.mm.guard) = true
+      by_cases hem : s.mm.emits (m.get s.field) = true
       · have : marshalOpt m s = [(s.key, s.ty.encode (m.get s.field))] := by simp [marshalOpt, hem]
         rw [this, List.cons_append, Dict.get?_cons_self, if_pos hem]
       · have : marshalOpt m s = [] := by simp [marshalOpt, hem]
